@@ -31,7 +31,10 @@ def k3(ctx):
                                                "reference": c["native"][:300], "size": len(c["input"])})
         for c, l in zip(reqs, lean):
             if l.startswith("bad-"):
-                continue      # request kinds the driver does not model (slices)
+                # every request kind is modelled (slices since session 4): an unanswered request is a broken tie
+                parts["model"]["n"] += 1
+                parts["model"]["dis"].append({"kind": c["kind"], "input": c["input"], "model": l[:300], "impl": c["impl"][:300], "size": len(c["input"])})
+                continue
             m, _, s = l.partition(" ### ")
             parts["model"]["n"] += 1
             parts["spec"]["n"] += 1
